@@ -171,6 +171,18 @@ mod gf255 {
             }
         }
         #[kani::proof]
+        #[kani::stub(crrl::backend::w64::addcarry_u64, portable_addcarry_u64)]
+        #[kani::stub(crrl::backend::w64::subborrow_u64, portable_subborrow_u64)]
+        #[kani::unwind(34)]
+        fn k_decode_reduce32() {
+            // every 32-byte string: the decoded element is LE(buf) mod q (what X25519 relies on for non-canonical u)
+            let buf: [u8; 32] = kani::any();
+            let r = GF255::<MQ>::decode_reduce(&buf[..]);
+            let v = R::from_le_bytes(&buf);
+            // |r - v| < 2^256 < 5q
+            assert!(mult_of_q(R::sub(w(&r), v), MQ));
+        }
+        #[kani::proof]
         #[kani::unwind(50)]
         fn k_lookup16() {
             // every table content, every u32 index
